@@ -222,7 +222,7 @@ func hookMain(args []string) {
 		}
 	}
 	var b strings.Builder
-	b.WriteString("From GK Require Import Hook.\nOpen Scope string_scope.\nOpen Scope list_scope.\nOpen Scope Z_scope.\n")
+	b.WriteString("From GK Require Import SysCheck.\nOpen Scope string_scope.\nOpen Scope list_scope.\nOpen Scope Z_scope.\n")
 	b.WriteString("Definition cases : list hhist := [\n" + strings.Join(cases, ";\n") + "\n].\n")
 	if err := os.WriteFile(*out, []byte(b.String()), 0o644); err != nil {
 		panic(err)
